@@ -451,7 +451,13 @@ fn gen_desc(r: &mut Rng, exotic: bool) -> SessionDescription {
             s.formats.push(r.pick(&["0", "8", "96", "97", "111", "101", "webrtc-datachannel", "t38", "255", "300"]).to_string());
         }
         s.direction = *r.pick(&[Direction::SendRecv, Direction::SendOnly, Direction::RecvOnly, Direction::Inactive]);
-        s.connection = if r.chance(1, 3) { Some("IN IP4 0.0.0.0".into()) } else { None };
+        // media-level c=: absent, different from the session-level one, or equal to it (a printer that drops
+        // the "redundant" line loses `connection: Some(..)` on the way back)
+        s.connection = match r.below(6) {
+            0 | 1 => Some("IN IP4 0.0.0.0".into()),
+            2 | 3 => d.session.connection.clone().or(Some("IN IP4 192.0.2.1".into())),
+            _ => None,
+        };
         let na = r.below(11);
         for _ in 0..na {
             s.attributes.push(gen_attr(r, exotic));
@@ -512,7 +518,7 @@ fn gen_raw(r: &mut Rng, wild: bool) -> Vec<Line> {
         });
         let mut body: Vec<Line> = vec![];
         if r.chance(1, 3) {
-            body.push(Line::C("IN IP4 0.0.0.0".into()));
+            body.push(Line::C(r.pick(&["IN IP4 0.0.0.0", "IN IP4 198.51.100.1"]).to_string()));
         }
         if !mids[i].is_empty() {
             body.push(Line::A(format!("mid:{}", mids[i])));
@@ -580,6 +586,18 @@ fn corpus_descs() -> Vec<SessionDescription> {
     // already transport-first: the literal round trip holds
     d.media_sections[0].attributes.swap(0, 1);
     v.push(d.clone());
+    // session-level c= and a media-level c= equal to it, plus one that differs (transport-first: literal round trip)
+    let mut g = SessionDescription::new(SdpType::Answer);
+    g.session.connection = Some("IN IP4 192.0.2.1".into());
+    for (i, c) in ["IN IP4 192.0.2.1", "IN IP4 198.51.100.7"].iter().enumerate() {
+        let mut s = MediaSection::new(MediaKind::Audio, i.to_string());
+        s.formats.push("0".into());
+        s.connection = Some(c.to_string());
+        s.attributes.push(Attribute::new("setup", Some("passive".into())));
+        s.attributes.push(Attribute::new("rtcp-mux", None));
+        g.media_sections.push(s);
+    }
+    v.push(g);
     // no sections, session attributes only
     let mut e = SessionDescription::new(SdpType::Offer);
     e.session.attributes.push(Attribute::new("group", Some("BUNDLE".into())));
@@ -811,7 +829,7 @@ fn osec_t(s: &OSec) -> String {
     let apt: Vec<String> = if rtp { s.rtx.iter().map(|(r, p)| format!("({}, {})", r, p)).collect() } else { vec![] };
     let ext: Vec<String> = s.ext.iter().map(|(id, u)| format!("({}, {})", id, uri_t(u))).collect();
     format!(
-        "mkOsec {} {} {} {} {} {} {} {} {}",
+        "mkOsecP {} {} {} {} {} {} {} {} {} {} {}",
         kind_t(s.kind),
         st(&s.mid),
         dir_t(s.dir.unwrap_or(Direction::SendRecv)),
@@ -820,7 +838,9 @@ fn osec_t(s: &OSec) -> String {
         list_term(&apt),
         list_term(&ext),
         bool_term(s.mux),
-        ost(&s.setup)
+        ost(&s.setup),
+        s.port,
+        bool_term(s.extra.iter().any(|e| e.0 == "bundle-only"))
     )
 }
 fn offer_t(o: &Offer) -> String {
@@ -856,8 +876,9 @@ fn tdir_t(d: TransceiverDirection) -> &'static str {
     }
 }
 
-/// the real answer abstracted to the model's `answer`
-fn answer_t(a: &SessionDescription) -> String {
+/// the real answer abstracted to the model's `answer`; the port is part of the abstraction only where the
+/// model determines it (WebRTC mode)
+fn answer_t(a: &SessionDescription, webrtc: bool) -> String {
     let group = a.session.attributes.iter().find_map(|x| {
         if x.key == "group" {
             x.value.as_ref().and_then(|v| v.strip_prefix("BUNDLE ").map(|r| r.split(' ').map(|m| st(m)).collect::<Vec<_>>()))
@@ -893,7 +914,7 @@ fn answer_t(a: &SessionDescription) -> String {
             }
             let setup = s.attributes.iter().find(|x| x.key == "setup").and_then(|x| x.value.clone());
             format!(
-                "(mkAsec {} {} {} {} {} {} {} {} {})",
+                "(mkAsec {} {} {} {} {} {} {} {} {} {})",
                 kind_t(s.kind),
                 st(&s.mid),
                 dir_t(s.direction),
@@ -902,7 +923,8 @@ fn answer_t(a: &SessionDescription) -> String {
                 list_term(&apt),
                 list_term(&ext),
                 bool_term(s.attributes.iter().any(|x| x.key == "rtcp-mux")),
-                ost(&setup)
+                ost(&setup),
+                if webrtc { format!("(Some {})", s.port) } else { "None".into() }
             )
         })
         .collect();
@@ -918,6 +940,7 @@ struct View {
     secs: Vec<SecView>,
 }
 struct SecView {
+    port: isize,
     kind: String,
     formats: Vec<String>,
     attrs: Vec<(String, Option<String>)>,
@@ -986,6 +1009,7 @@ fn view(text: &str) -> Result<View, String> {
         .media_descriptions
         .iter()
         .map(|m| SecView {
+            port: m.media_name.port.value,
             kind: m.media_name.media.clone(),
             formats: m.media_name.formats.clone(),
             attrs: m.attributes.iter().map(|a| (a.key.clone(), a.value.clone())).collect(),
@@ -1048,6 +1072,11 @@ fn valid_answer_oracle(offer_text: &str, answer_text: &str, ctx: &OracleCtx) -> 
             } else {
                 v.fails.push(format!("section {}: mid {:?} answered with mid {:?}", i, os.mid(), as_.mid()));
             }
+        }
+        // ---- a rejected / disabled m-line (port 0, not bundle-only) must be answered with port 0 (RFC 3264 section 6)
+        if os.port == 0 && os.get("bundle-only").is_none() && as_.port != 0 {
+            // listed class: the answer's port never depends on the offered one
+            v.known.push("rejected_section_answered_live".into());
         }
         let rtp = os.kind == "audio" || os.kind == "video";
         // ---- payload types
@@ -1274,7 +1303,7 @@ fn scenario_case(sc: &Scenario, recs: &[RoundRec], kind: &str, stats: &mut Stats
                     known.extend(vd.known);
                 }
                 *stats.c.entry(format!("answer:{}:ok", kind)).or_default() += 1;
-                format!("ROk ({})", answer_t(a))
+                format!("ROk ({})", answer_t(a, sc.cfg.mode == TransportMode::WebRtc))
             }
             RoundOut::CaErr(e) => {
                 *stats.c.entry(format!("answer:{}:create_answer-err", kind)).or_default() += 1;
@@ -1312,6 +1341,14 @@ fn scenario_case(sc: &Scenario, recs: &[RoundRec], kind: &str, stats: &mut Stats
             else if mids.iter().all(|m| m.chars().all(|c| c.is_ascii_digit())) { "numeric" }
             else { "non-numeric" };
         *stats.c.entry(format!("offer:mids:{}", scheme)).or_default() += 1;
+        let nrej = o.secs.iter().filter(|x| x.port == 0).count();
+        if nrej > 0 {
+            let pos = if o.secs[0].port == 0 { "first" } else if o.secs[n - 1].port == 0 { "last" } else { "middle" };
+            *stats.c.entry(format!("offer:rejected-sections:{}", pos)).or_default() += 1;
+            if o.secs.iter().any(|x| x.port == 0 && x.extra.iter().any(|e| e.0 == "bundle-only")) {
+                *stats.c.entry("offer:rejected-sections:bundle-only".into()).or_default() += 1;
+            }
+        }
     }
     known.sort();
     known.dedup();
@@ -1484,6 +1521,12 @@ fn gen_sec(r: &mut Rng, kind: MediaKind, mid: String, wf: bool, webrtcish: bool)
         extra,
     }
 }
+fn disable_sec(r: &mut Rng, s: &mut OSec) {
+    s.port = 0;
+    if r.chance(1, 3) && !s.extra.iter().any(|e| e.0 == "bundle-only") {
+        s.extra.push(("bundle-only".to_string(), None));
+    }
+}
 fn pick_kind(r: &mut Rng) -> MediaKind {
     match r.below(10) {
         0..=3 => MediaKind::Audio,
@@ -1519,6 +1562,15 @@ fn gen_offer(r: &mut Rng, mode: &TransportMode, wf: bool) -> (Offer, u64) {
         let kind = pick_kind(r);
         let mid = mid_for(r, scheme, i, kind);
         secs.push(gen_sec(r, kind, mid, wf, webrtcish));
+    }
+    // rejected / disabled m-lines (port 0, RFC 3264 5.1 / 8.2), with and without a=bundle-only: any position
+    if r.chance(1, 4) {
+        let k = if r.chance(3, 4) { 1 } else { 2 };
+        for _ in 0..k {
+            let rnd = r.below(secs.len() as u64) as usize;
+            let i = *r.pick(&[0usize, secs.len() / 2, secs.len() - 1, rnd]);
+            disable_sec(r, &mut secs[i]);
+        }
     }
     // BUNDLE
     let mids: Vec<String> = secs.iter().map(|s| s.mid.clone()).filter(|m| !m.is_empty()).collect();
@@ -1612,7 +1664,20 @@ fn mutate_offer(r: &mut Rng, prev: &Offer, scheme: u64, mode: &TransportMode, wf
         if !mid.is_empty() && !o.groups.is_empty() && r.chance(3, 4) {
             o.groups[0].push(mid);
         }
+        if r.chance(1, 4) {
+            disable_sec(r, &mut s); // a re-offer that adds an m-line which is (already) switched off
+        }
         o.secs.push(s);
+    }
+    if r.chance(1, 6) {
+        // a re-offer that switches an existing m-line off, or back on
+        let i = r.below(o.secs.len() as u64) as usize;
+        if o.secs[i].port == 0 {
+            o.secs[i].port = if webrtcish { 9 } else { 30000 + 2 * r.below(1000) as u16 };
+            o.secs[i].extra.retain(|e| e.0 != "bundle-only");
+        } else {
+            disable_sec(r, &mut o.secs[i]);
+        }
     }
     let _ = mode;
     o
@@ -1721,6 +1786,29 @@ fn corpus_scenarios() -> Vec<Scenario> {
     // a=mid:65535 (F5, fixed with saturating arithmetic) and a data channel section
     v.push(Scenario { cfg: default_cfg(), pre: vec![], dc: true, wf: true,
         rounds: vec![simple_offer(vec![vec!["65535".into(), "65534".into()]], vec![simple_sec(MediaKind::Audio, "65535", vec![opus()]), simple_sec(MediaKind::Application, "65534", vec![])])] });
+    // rejected m-lines (port 0): middle position, then a re-offer that adds a disabled one and one with bundle-only
+    {
+        let mut v1 = simple_sec(MediaKind::Video, "1", vec![vp8()]);
+        v1.port = 0;
+        let o1 = simple_offer(vec![vec!["0".into(), "2".into()]], vec![simple_sec(MediaKind::Audio, "0", vec![opus()]), v1, simple_sec(MediaKind::Application, "2", vec![])]);
+        let mut o2 = o1.clone();
+        let mut v3 = simple_sec(MediaKind::Video, "3", vec![vp8()]);
+        v3.port = 0;
+        o2.secs.push(v3);
+        let mut a4 = simple_sec(MediaKind::Audio, "4", vec![opus()]);
+        a4.port = 0;
+        a4.extra.push(("bundle-only".into(), None));
+        o2.secs.push(a4);
+        o2.groups[0].push("4".into());
+        v.push(Scenario { cfg: default_cfg(), pre: vec![], dc: false, wf: true, rounds: vec![o1, o2] });
+        // first and last position, mid-less, plain RTP
+        let mut cfg = default_cfg();
+        cfg.mode = TransportMode::Rtp;
+        let mk = |k: MediaKind, port: u16, c: Vec<Codec>| { let mut s = simple_sec(k, "", c); s.setup = None; s.fp = false; s.ice = false; s.port = port; s.mux = false; s };
+        let mut o = simple_offer(vec![], vec![mk(MediaKind::Video, 0, vec![vp8()]), mk(MediaKind::Audio, 40000, vec![acodec(0, "PCMU", 8000, 1)]), mk(MediaKind::Audio, 0, vec![acodec(8, "PCMA", 8000, 1)])]);
+        o.profile = "RTP/AVP".into();
+        v.push(Scenario { cfg, pre: vec![], dc: false, wf: true, rounds: vec![o] });
+    }
     // duplicate mids + a pre-added transceiver: outside the property's domain, model only
     v.push(Scenario { cfg: default_cfg(), pre: vec![(MediaKind::Audio, TransceiverDirection::SendRecv)], dc: false, wf: false,
         rounds: vec![simple_offer(vec![], vec![simple_sec(MediaKind::Video, "a", vec![vp8()]), simple_sec(MediaKind::Audio, "a", vec![opus()])])] });
